@@ -221,6 +221,8 @@ func isNil(v value) bool {
 		return v == nil
 	case *symSlice:
 		return v == nil
+	case *ghostBytes:
+		return v == nil
 	case *mapObj:
 		return v == nil
 	case *chanObj:
